@@ -32,7 +32,12 @@ def main():
         proof = common.proof_step(ctx, getattr(mod, 'EXTRA_TARGETS', ()))
         driver_ok = os.path.exists(wire.DRIVER) and not (
             proof.get('broken') == 'lake build failed')
+        pycov = common.PyCoverage(prop)
+        pycov.start()
         cov = mod.run(ctx, proof, driver_ok)
+        measured = pycov.stop()
+        if measured is not None:
+            cov['python_line_coverage_of_anchor_files'] = measured
         if not proof['ok'] and not ctx.violations:
             ctx.violation({'kind': 'proof step broken, no failing input found',
                            'what_no_longer_checks': proof.get('broken'),
